@@ -10,6 +10,10 @@ pub mod child;
 #[cfg(futures_buffered_verif)]
 pub mod fub;
 #[cfg(futures_buffered_verif)]
+pub mod fob;
+#[cfg(futures_buffered_verif)]
 pub mod fu;
 #[cfg(futures_buffered_verif)]
 pub mod harnesses;
+#[cfg(futures_buffered_verif)]
+pub mod xmini;
